@@ -132,6 +132,18 @@ def _worker_run(arg):
             res = rec.result()
             res["shard_item"] = item
             return idx, res
+        if type(e).__name__ == "RefInputError":
+            # a reference encoder was fed a value outside its field: on a tree where the alphabets pass (they are in range by
+            # construction) that value was REPORTED by the library (ref/bits.py RefInputError) - a verdict, with the shard as witness
+            from mc.rec import Rec
+            rec = Rec(pid, item)
+            rec.case(True)
+            rec.violation(f"{pid}.observed/value-outside-its-field", {"__shard__": item}, observed=text[-1500:],
+                          expected="every value the library reports fits the field it belongs to",
+                          note="a value reported by the library did not fit its field in the reference encoder; replay re-executes the whole shard")
+            res = rec.result()
+            res["shard_item"] = item
+            return idx, res
         # harness bug inside a shard: report, never a verdict
         return idx, {"harness_error": text, "shard": repr(item)[:300]}
     if isinstance(res, dict):
